@@ -708,12 +708,12 @@ func (r *kvRun) checkLayer(rows []kvRow, o kvLayerOut) {
 				op = r.cause[row.seq]
 			}
 			if r.mergedDefrag && diff != "mask-value" {
-				if cell, meta, data := kvMisplaced(o.sub.c); cell >= 0 {
+				if why := r.misplaced(o.sub.c); why != "" {
 					// diagnosis only (the violation is what Get exposed): the cache's own
 					// bookkeeping and the stored key disagree about a cell after a defrag
 					// that merged adjacent moves
 					diff, op = "misplaced-data", "after-merged-defrag"
-					f += fmt.Sprintf("\n  diagnosis: cell %d is recorded as position %d but holds the key of position %d; a defrag earlier in this history merged adjacent moves", cell, meta, data)
+					f += "\n  diagnosis: " + why + "; a defrag earlier in this history merged adjacent moves into one copy"
 				}
 			}
 			r.violate("history", "kv-history:"+o.sub.name+":"+diff+":"+op,
@@ -810,9 +810,9 @@ func (r *kvRun) checkLayer(rows []kvRow, o kvLayerOut) {
 	}
 }
 
-// kvMisplaced looks for a live cell whose recorded position differs from the
-// position stored in its key (signature refinement only, never an oracle).
-func kvMisplaced(c *Causal) (cell int, meta, data int32) {
+// misplaced looks for a live cell whose bookkeeping (position, owners) does not
+// match the key stored in it (signature refinement only, never an oracle).
+func (r *kvRun) misplaced(c *Causal) string {
 	layers := make([]int, 0, len(c.keys))
 	for l := range c.keys {
 		layers = append(layers, l)
@@ -827,12 +827,25 @@ func kvMisplaced(c *Causal) (cell int, meta, data int32) {
 			if len(c.cells[i].sequences) == 0 {
 				continue
 			}
-			if p := int32(kt.at(1, 0, i, 0)); p != c.cells[i].pos {
-				return i, c.cells[i].pos, p
+			tok, p := int(kt.at(0, 0, i, 0))/8, int32(kt.at(1, 0, i, 0))
+			if p != c.cells[i].pos {
+				return fmt.Sprintf("cell %d is recorded as position %d but holds the key of token %d at position %d", i, c.cells[i].pos, tok, p)
+			}
+			for _, s := range c.cells[i].sequences {
+				found := false
+				if s >= 0 && s < len(r.ref) {
+					for _, e := range r.ref[s] {
+						found = found || (e.tok == tok && e.pos == p)
+					}
+				}
+				if !found {
+					return fmt.Sprintf("cell %d is recorded as position %d of sequence %d but holds the key of token %d, which that sequence does not contain", i, p, s, tok)
+				}
 			}
 		}
+		break
 	}
-	return -1, 0, 0
+	return ""
 }
 
 func kvFmtEntries(m map[int]kvEntry) string {
@@ -938,6 +951,12 @@ func (r *kvRun) resume(s, p int, op string) {
 			r.probe("canresume_true_windowed")
 		}
 	}
+	if p == len(r.ref[s]) && r.draw(2) == 0 {
+		// nothing to remove: a caller may or may not issue the no-op Remove
+		r.lastOp[s] = op
+		r.noteCause(s, op)
+		return
+	}
 	var err error
 	if r.guard("Remove", func() { err = r.cache.Remove(s, int32(p), math.MaxInt32) }) {
 		return
@@ -954,9 +973,12 @@ func (r *kvRun) resume(s, p int, op string) {
 }
 
 func (r *kvRun) opCopy() {
-	src := r.liveSeqs(1)
-	if len(src) == 0 || r.cfg.nseq < 2 {
+	if r.cfg.nseq < 2 {
 		return
+	}
+	src := r.liveSeqs(1)
+	if len(src) == 0 || r.draw(8) == 0 {
+		src = r.liveSeqs(0) // copying from an empty sequence empties the destination
 	}
 	s := src[r.draw(len(src))]
 	d := r.draw(r.cfg.nseq - 1)
@@ -1028,6 +1050,10 @@ func (r *kvRun) shared(tok int, s int) bool {
 func (r *kvRun) opRemoveRange() {
 	ss := r.liveSeqs(1)
 	if len(ss) == 0 {
+		// nothing stored anywhere: removing from an empty sequence must be harmless
+		s, e := r.draw(r.cfg.nseq), 1+r.draw(3)
+		r.note("Remove(%d, 0, %d) on an empty sequence", s, e)
+		r.guard("Remove", func() { _ = r.cache.Remove(s, 0, int32(e)) })
 		return
 	}
 	s := ss[r.draw(len(ss))]
@@ -1044,7 +1070,10 @@ func (r *kvRun) opRemoveRange() {
 	r.mix(5, s, b, e)
 	r.note("Remove(%d, %d, %d) (has %d) [%s]", s, b, e, n, kind)
 	r.info("nonput_ops")
-	needShift := e < n
+	needShift := false // some entry behind the range is certainly still stored
+	for _, x := range r.ref[s] {
+		needShift = needShift || (x.pos >= int32(e) && x.gone == 0)
+	}
 	if e == n && b > 0 && r.cfg.kind != kvKindCausal {
 		// removing up to the end is a resume at position b: the caller has to ask first
 		ok := true
